@@ -62,13 +62,15 @@ type recv struct {
 	ord  bslice.OrderedBSlice[int]
 	calc bslice.CalculableBSlice[int]
 	// every slice handed over so far, at full capacity: the slice the wrapper was built from, then every returned slice
-	ret *[][]int
+	ret  *[][]int
+	safe bool
 }
 
 // newRecvOn builds the wrapper on s and retains s
 func newRecvOn(w int, s []int) recv {
 	r := newRecv(w, s)
 	r.ret = &[][]int{s[:cap(s)]}
+	r.safe = w%2 == 1
 	return r
 }
 
@@ -101,6 +103,45 @@ func newRecv(w int, s []int) recv {
 	}
 }
 
+// ---------- callbacks that look at the receiver while the method runs ----------
+// view: the receiver as the callback can reach it: through ToMetaSlice on an unsafe wrapper; on a Safe wrapper (whose
+// ToMetaSlice would take the lock the running method holds) through the slice header captured just before the call.
+type spyState struct {
+	view func() []int
+	seen [][]int
+}
+
+var curSpy *spyState
+
+func spyLook(o op) {
+	if !o.Spy || curSpy == nil {
+		return
+	}
+	v := append([]int{}, curSpy.view()...)
+	if n := len(curSpy.seen); n > 0 && sameInts(curSpy.seen[n-1], v) {
+		return
+	}
+	if len(curSpy.seen) < 12 {
+		curSpy.seen = append(curSpy.seen, v)
+	}
+}
+func spyPred(o op) func(int) bool {
+	f := preds[o.Fn]
+	return func(v int) bool { spyLook(o); return f(v) }
+}
+func spyEq(o op) func(int, int) bool {
+	f := eqs[o.Fn]
+	return func(a, b int) bool { spyLook(o); return f(a, b) }
+}
+func spyLess(o op) func(int, int) bool {
+	f := lesses[o.Fn]
+	return func(a, b int) bool { spyLook(o); return f(a, b) }
+}
+func spyCmp(o op) func(int, int) int {
+	f := cmps[o.Fn]
+	return func(a, b int) int { spyLook(o); return f(a, b) }
+}
+
 // ---------- one call ----------
 type op struct {
 	Name string `json:"m"`
@@ -109,6 +150,7 @@ type op struct {
 	Vals []int  `json:"vals,omitempty"`
 	Fn   string `json:"fn,omitempty"`
 	Data string `json:"data,omitempty"` // Unmarshal: raw bytes
+	Spy  bool   `json:"spy,omitempty"`  // the callback also looks at the receiver and records what it sees
 }
 
 // minimal flavour: 0 any, 1 comparable, 2 ordered, 3 calculable
@@ -315,11 +357,11 @@ func exec(o op, r recv) (v val, err bool) {
 	v = val{kind: "none"}
 	switch o.Name {
 	case "EqualFunc":
-		v = val{kind: "bool", b: a.EqualFunc(o.Vals, eqs[o.Fn])}
+		v = val{kind: "bool", b: a.EqualFunc(o.Vals, spyEq(o))}
 	case "CompareFunc":
-		v = val{kind: "int", i: a.CompareFunc(o.Vals, cmps[o.Fn])}
+		v = val{kind: "int", i: a.CompareFunc(o.Vals, spyCmp(o))}
 	case "IndexFunc":
-		v = val{kind: "int", i: a.IndexFunc(preds[o.Fn])}
+		v = val{kind: "int", i: a.IndexFunc(spyPred(o))}
 	case "Insert":
 		a.Insert(o.I, o.Vals...)
 	case "InsertE":
@@ -347,7 +389,7 @@ func exec(o op, r recv) (v val, err bool) {
 	case "CloneToBSlice":
 		v = vbs(a.CloneToBSlice())
 	case "CompactFunc":
-		a.CompactFunc(eqs[o.Fn])
+		a.CompactFunc(spyEq(o))
 	case "Grow":
 		a.Grow(o.I)
 	case "GrowE":
@@ -356,37 +398,37 @@ func exec(o op, r recv) (v val, err bool) {
 		a.Clip()
 	case "ForEach":
 		l := []int{}
-		a.ForEach(func(i, e int) { l = append(l, i, e) })
+		a.ForEach(func(i, e int) { spyLook(o); l = append(l, i, e) })
 		v = val{kind: "list", l: l}
 	case "SortFunc":
-		a.SortFunc(lesses[o.Fn])
+		a.SortFunc(spyLess(o))
 	case "SortFuncToSlice":
-		v = vslice(a.SortFuncToSlice(lesses[o.Fn]))
+		v = vslice(a.SortFuncToSlice(spyLess(o)))
 	case "SortFuncToBSlice":
-		v = vbs(a.SortFuncToBSlice(lesses[o.Fn]))
+		v = vbs(a.SortFuncToBSlice(spyLess(o)))
 	case "SortComparator":
-		a.SortComparator(cmps[o.Fn])
+		a.SortComparator(spyCmp(o))
 	case "SortComparatorToSlice":
-		v = vslice(a.SortComparatorToSlice(cmps[o.Fn]))
+		v = vslice(a.SortComparatorToSlice(spyCmp(o)))
 	case "SortComparatorToBSlice":
-		v = vbs(a.SortComparatorToBSlice(cmps[o.Fn]))
+		v = vbs(a.SortComparatorToBSlice(spyCmp(o)))
 	case "SortStableFunc":
-		a.SortStableFunc(lesses[o.Fn])
+		a.SortStableFunc(spyLess(o))
 	case "SortStableFuncToSlice":
-		v = vslice(a.SortStableFuncToSlice(lesses[o.Fn]))
+		v = vslice(a.SortStableFuncToSlice(spyLess(o)))
 	case "SortStableFuncToBSlice":
-		v = vbs(a.SortStableFuncToBSlice(lesses[o.Fn]))
+		v = vbs(a.SortStableFuncToBSlice(spyLess(o)))
 	case "IsSortedFunc":
-		v = val{kind: "bool", b: a.IsSortedFunc(lesses[o.Fn])}
+		v = val{kind: "bool", b: a.IsSortedFunc(spyLess(o))}
 	case "BinarySearchFunc":
-		p, f := a.BinarySearchFunc(o.I, cmps[o.Fn])
+		p, f := a.BinarySearchFunc(o.I, spyCmp(o))
 		v = val{kind: "intbool", i: p, b: f}
 	case "Filter":
-		a.Filter(preds[o.Fn])
+		a.Filter(spyPred(o))
 	case "FilterToSlice":
-		v = vslice(a.FilterToSlice(preds[o.Fn]))
+		v = vslice(a.FilterToSlice(spyPred(o)))
 	case "FilterToBSlice":
-		v = vbs(a.FilterToBSlice(preds[o.Fn]))
+		v = vbs(a.FilterToBSlice(spyPred(o)))
 	case "Reverse":
 		a.Reverse()
 	case "ReverseToSlice":
@@ -526,7 +568,22 @@ func observe(o op, r recv) (term string, panicked bool, summary map[string]inter
 	beforeFull := before[:cap(before)]
 	var v val
 	var err bool
+	curSpy = nil
+	if o.Spy {
+		if r.safe {
+			curSpy = &spyState{view: func() []int { return before }}
+		} else {
+			curSpy = &spyState{view: func() []int { return r.any.ToMetaSlice() }}
+		}
+	}
 	p, pv := vhlib.Recover(func() { v, err = exec(o, r) })
+	seenT := []string{}
+	if curSpy != nil {
+		for _, sn := range curSpy.seen {
+			seenT = append(seenT, zl(sn))
+		}
+	}
+	curSpy = nil
 	after := r.any.ToMetaSlice()
 	afterFull := append([]int{}, after[:cap(after)]...)
 	same := base(before) != nil && base(before) == base(after)
@@ -591,8 +648,11 @@ func observe(o op, r recv) (term string, panicked bool, summary map[string]inter
 		retSum[i] = append([]int{}, hnd...)
 	}
 	summary["retained"] = retSum
-	term = fmt.Sprintf("{| o_panic := %s; o_err := %s; o_val := %s; o_nil := %s; o_len := %s; o_win := %s; o_same := %s; o_ret := %s |}",
-		vhlib.Bool(p), vhlib.Bool(err), vt, vhlib.Bool(after == nil), vhlib.Nat(len(after)), zl(afterFull), vhlib.Bool(same), vhlib.List(rets))
+	if len(seenT) > 0 {
+		summary["callback_saw"] = seenT
+	}
+	term = fmt.Sprintf("{| o_panic := %s; o_err := %s; o_val := %s; o_nil := %s; o_len := %s; o_win := %s; o_same := %s; o_ret := %s; o_seen := %s |}",
+		vhlib.Bool(p), vhlib.Bool(err), vt, vhlib.Bool(after == nil), vhlib.Nat(len(after)), zl(afterFull), vhlib.Bool(same), vhlib.List(rets), vhlib.List(seenT))
 	return term, p, summary
 }
 
